@@ -648,3 +648,48 @@ func ConstructShape(s string) string {
 
 // Elapsed since load started.
 func (c *Ctx) Elapsed() float64 { return time.Since(c.start).Seconds() }
+
+// Sub returns a context that shares the loaded program (packages, SSA, call graph if already built) with c but has its
+// own, empty obligation list. Used to evaluate rules of another property and import selected obligations under the
+// importing property's rule names (ImportFrom).
+func (c *Ctx) Sub() *Ctx {
+	c.SSA()
+	s := &Ctx{Prop: c.Prop, Tier: c.Tier, Repo: c.Repo, Variant: c.Variant, Pkgs: c.Pkgs, All: c.All, Fset: c.Fset, NFiles: c.NFiles,
+		Prog: c.Prog, ssaPkgs: c.ssaPkgs, allFn: c.allFn, keyCount: map[string]int{}, Stats: map[string]int{}, start: c.start}
+	s.ssaOnce.Do(func() {})
+	if c.cg != nil {
+		s.cg = c.cg
+		s.cgOnce.Do(func() {})
+	}
+	return s
+}
+
+// ImportFrom copies the obligations of sub whose rule is renamed by the mapping (rule -> new rule name); obligations of
+// other rules, instance-count rows and floors of sub are dropped. Unresolved anchors of the imported rules are kept.
+func (c *Ctx) ImportFrom(sub *Ctx, rename map[string]string) int {
+	n := 0
+	for _, o := range sub.obs {
+		nr, ok := rename[o.Rule]
+		if !ok {
+			if o.Rule == "anchor-unresolved" {
+				for from, to := range rename {
+					if strings.HasPrefix(o.Construct, from+":") {
+						c.add("anchor-unresolved", to+":"+strings.TrimPrefix(o.Construct, from+":"), token.NoPos, o.Status, o.Detail)
+					}
+				}
+			}
+			continue
+		}
+		k := nr + "\x00" + o.Construct
+		c.keyCount[k]++
+		cp := *o
+		cp.Property, cp.Rule = c.Prop, nr
+		c.obs = append(c.obs, &cp)
+		n++
+	}
+	if c.cg == nil && sub.cg != nil {
+		c.cg = sub.cg
+		c.cgOnce.Do(func() {})
+	}
+	return n
+}
